@@ -43,9 +43,10 @@ def gen(ctx):
             items.append((L.Sched(labels=labels + L.flush(rid), note=f"typed {kind} lists"), {"expect": exp, "frames": frames}))
     # a second caller's raw list interleaved with typed lists
     for _ in range(20 if ctx.tier == "quick" else 400):
-        labels = ["D0"]
+        labels = ["D0"] if rng.random() < 0.6 else ["k" + str(rng.choice([1, 5, 16, 24])), "D0"]
         exp = {}
         frames = []
+        cancelled = set()
         rid = 0
         for _ in range(rng.choice([2, 5, 9])):
             rid += 1
@@ -56,6 +57,11 @@ def gen(ctx):
             exp[rid] = "ok[" + ",".join(want) + "]"
             frames.append(lines)
             labels += rng.choice([[], ["S*"], ["S*", "D0"], ["t101"], ["N:" + hexs("player")], ["D3"]])
+            if rng.random() < 0.15 and n >= 1:
+                # the caller gives up (timeout in the application) while its list is queued or in flight; the next list must still pair with its own frames
+                labels += rng.choice([[], ["S*"]]) + [f"x{rid}"]
+                del exp[rid]
+                cancelled.add(rid)
         items.append((L.Sched(labels=labels + L.flush(rid), note="mixed typed lists"), {"expect": exp, "frames": frames}))
     return items
 
